@@ -35,6 +35,10 @@ def run(c):
         g = c.gotest("partset", "TestBlockFields", env=dict(BF_DUMP=dump, BF_INITIAL=int(initial), BF_SCENES=2), timeout=3000,
                      tag="join: real ValidateBlock on " + tag)
         c.absorb(g)
+        if not initial:
+            g = c.gotest("partset", "TestBlockFields", env=dict(BF_DUMP=dump, BF_INITIAL=0, BF_CHANGED=1, BF_SCENES=2), timeout=3000,
+                         tag="join: real ValidateBlock, validator set changed between heights 2 and 3")
+            c.absorb(g)
         os.remove(dump)
     # (a) exhaustive from every start state (initial state + scripted prefixes: locked, moved on while locked,
     #     valid block, waiting for a POL, next height, commit without block): invariants on every state,
